@@ -15,7 +15,7 @@ import random
 import re
 
 from vf import gen_fea
-from vf.runner import Acc, CaseTimeout, HarnessError, TESTS, subseed, time_limit
+from vf.runner import Acc, CaseTimeout, HarnessError, TESTS, short, subseed, time_limit
 
 ID = "C11"
 LEVEL = "exploration"
@@ -417,6 +417,47 @@ def check_roundtrip_generated(acc, program, text, data):
     acc.case(("rt", text), nontrivial=True, labels=["roundtrip:generated"])
 
 
+def check_text(acc, tseed, text=None):
+    """Round-trip clause on a generated text of vf.gen_fea_text (no shaping oracle for these statement kinds)."""
+    from vf import gen_fea_text
+
+    labels = []
+    if text is None:
+        text, labels = gen_fea_text.gen_text(tseed)
+    case = dict(kind="rt-text", tseed=tseed)
+    try:
+        with time_limit(120):
+            data, _font = compile_text(text)
+    except CaseTimeout:
+        acc.inconclusive += 1
+        return
+    except Exception as e:
+        # a text the unchanged library rejects is a generator error: counted, and the vacuity guard bounds the share
+        acc.exclude("generated-text-rejected:%s" % type(e).__name__)
+        acc.label("textgen:rejected")
+        acc.extra.setdefault("textgen_rejections", [])
+        if len(acc.extra["textgen_rejections"]) < 5:
+            acc.extra["textgen_rejections"].append(short(str(e), 200))
+        return
+    try:
+        t1, t2 = roundtrip_texts(text, gen_fea.GLYPHS)
+    except Exception as e:
+        acc.fail_exc("roundtrip-text", e, case)
+        return
+    if t1 != t2:
+        acc.fail("roundtrip-text", "asFea-not-fixed-point", first_diff(t1, t2), case)
+    try:
+        data1, _f = compile_text(t1)
+    except Exception as e:
+        acc.fail_exc("roundtrip-text", e, case, extra=" (compiling the asFea text)")
+        return
+    a, b = table_bytes(data), table_bytes(data1)
+    for tag in RT_TABLES + ["vmtx", "size"]:
+        if a.get(tag) != b.get(tag):
+            acc.fail("roundtrip-text", "table-differs:" + tag, "table %s from the text and from its asFea() form differ (%s vs %s bytes)" % (tag, len(a.get(tag) or b""), len(b.get(tag) or b"")), case, where=tag)
+    acc.case(("rt-text", tseed), nontrivial=True, labels=["roundtrip:text"] + ["text:" + l for l in labels])
+
+
 # ---------------------------------------------------------------------------
 # corpus round trip
 
@@ -540,6 +581,10 @@ def jobs(tier, seed):
         J.append(dict(kind="gen", name="gen-%03d" % i, seed=subseed(seed, "gen", i), n=k))
         n += k
         i += 1
+    # texts over the statement kinds outside the structured grammar (round-trip clause only)
+    nt = 8000 if thorough else 640
+    for k in range(16):
+        J.append(dict(kind="textgen", name="textgen-%02d" % k, seed=subseed(seed, "textgen", k), n=nt // 16))
     files = corpus_files()
     shards = 8
     for s in range(shards):
@@ -557,6 +602,9 @@ def run_job(job):
             check_program(acc, program, subseed(job["seed"], "r", i))
         for k, v in excl.items():
             acc.exclude(k, v)
+    elif job["kind"] == "textgen":
+        for i in range(job["n"]):
+            check_text(acc, subseed(job["seed"], "t", i))
     elif job["kind"] == "corpus":
         for rel in job["files"]:
             check_corpus_file(acc, rel)
@@ -578,6 +626,8 @@ def replay(case):
         check_roundtrip_generated(acc, program, text, data)
     elif case["kind"] == "rt-corpus":
         check_corpus_file(acc, case["file"])
+    elif case["kind"] == "rt-text":
+        check_text(acc, case["tseed"], text=case.get("text"))
     return acc.failures
 
 
